@@ -46,7 +46,7 @@ func loadKnownFindings(path string) ([]KnownFinding, error) {
 	return kf.Findings, nil
 }
 
-var pathSuffixRe = regexp.MustCompile(`~p\d+$`)
+var pathSuffixRe = regexp.MustCompile(`~p\d+`)
 
 func baseName(obl string) string { return pathSuffixRe.ReplaceAllString(obl, "") }
 
